@@ -115,11 +115,13 @@ func checkC16(c *ctx) {
 						break
 					}
 					handles = append(handles, vi)
-					names = append(names, fmt.Sprintf("open(except=%v, filtering=%v)+search", ex, filtered))
+					// a handle opened filter-capable may also serve a plain search (which must still honour the exclusions)
+					useFilter := filtered && (si+len(names))%2 == 0
+					names = append(names, fmt.Sprintf("open(except=%v, filtering=%v)+search(filtered=%v)", ex, filtered, useFilter))
 					q := randVec(c, o.dims["vec"])
 					k := int64(1 + c.R.Intn(4))
 					var eligible []uint64
-					if filtered {
+					if useFilter {
 						isEx := map[uint64]bool{}
 						for _, d := range ex {
 							isEx[d] = true
@@ -130,9 +132,9 @@ func checkC16(c *ctx) {
 							}
 						}
 					}
-					hits, bad := searchHandle(vi, q, k, eligible, filtered)
+					hits, bad := searchHandle(vi, q, k, eligible, useFilter)
 					if bad == "" {
-						bad = judge(c, hits, candidates(vf, q), ex, eligible, filtered, k, true)
+						bad = judge(c, hits, candidates(vf, q), ex, eligible, useFilter, k, true)
 					}
 					if bad != "" {
 						sort.Slice(hits, func(i, j int) bool { return hits[i].doc < hits[j].doc })
